@@ -1326,8 +1326,7 @@ func c17BilevelBody(r *fw.Rec, W, H int, sample bool, ctx map[string]interface{}
 		if err != nil || bb == nil {
 			return fail("BinaryBitmap.New:error", fmt.Sprint(err))
 		}
-		v := s.v
-		dcAccepted := false
+		v, ls := s.v, s.src
 		nops := 0
 		if rng.Intn(3) == 0 {
 			nops = 1 + rng.Intn(2)
@@ -1346,10 +1345,23 @@ func c17BilevelBody(r *fw.Rec, W, H int, sample bool, ctx map[string]interface{}
 					return fail(c17Fam(kind, "Crop")+".Crop:"+class, "BinaryBitmap."+detail)
 				}
 				if acc {
-					if v.classify(l, t, cw, ch) == c17CropDC {
-						dcAccepted = true
+					// the same crop on the luminance source itself: must be accepted too, and if it
+					// leaves the view it must show the underlying pixels
+					nls, err2 := ls.Crop(l, t, cw, ch)
+					if err2 != nil || nls == nil {
+						return fail("BinaryBitmap.Crop:differs-from-source-crop", fmt.Sprintf("BinaryBitmap.Crop accepted a rectangle that the source's Crop refuses: %v", err2))
 					}
-					bb, v = nb, v.crop(l, t, cw, ch)
+					nv := v.crop(l, t, cw, ch)
+					if v.classify(l, t, cw, ch) == c17CropDC {
+						var c, d string
+						if msg, _, panicked := fw.Guard(func() { c, d = c17CheckView(nls, nv, rng) }); panicked {
+							c, d = "panic", "panic: "+msg
+						}
+						if c != "" {
+							return fail(c17Fam(kind, "Crop")+".Crop:accepts-rect-outside-view-without-showing-underlying", fmt.Sprintf("Crop(%d,%d,%d,%d) on a view (%d,%d) %dx%d of a %dx%d image returned no error, then %s: %s", l, t, cw, ch, v.L, v.T, v.w, v.h, v.W, v.H, c, d))
+						}
+					}
+					bb, v, ls = nb, nv, nls
 					r.Tally("bin_op_crop")
 				}
 			} else {
@@ -1370,20 +1382,14 @@ func c17BilevelBody(r *fw.Rec, W, H int, sample bool, ctx map[string]interface{}
 						return fail("BinaryBitmap.RotateCounterClockwise:error", fmt.Sprint(err))
 					}
 					bb, v = nb, v.rotate()
+					if ls, err = ls.RotateCounterClockwise(); err != nil {
+						return fail("BinaryBitmap.RotateCounterClockwise:differs-from-source-rotate", err.Error())
+					}
 					r.Tally("bin_op_rotate")
 				}
 			}
 		}
-		var c, d string
-		if !dcAccepted {
-			c, d = c17CheckBinary(r, bb, which, v, "bin_")
-		} else if msg, _, panicked := fw.Guard(func() { c, d = c17CheckBinary(r, bb, which, v, "bin_") }); panicked {
-			c, d = "panic", "panic: "+msg
-		}
-		if c != "" {
-			if dcAccepted {
-				return fail(c17Fam(kind, "Crop")+".Crop:accepts-rect-outside-view-without-showing-underlying", "BinaryBitmap.Crop accepted a rectangle leaving the view, then "+c+": "+d)
-			}
+		if c, d := c17CheckBinary(r, bb, which, v, "bin_"); c != "" {
 			return fail(c, d)
 		}
 		if (v.w < 40) != (v.h < 40) {
@@ -1537,7 +1543,7 @@ func c17(c *fw.Ctx) {
 	c.Assume("crop coordinates are bounded by a few image sizes (no integer-overflow rectangles); width and height >= 1; RotateCounterClockwise45 is not part of the statement and is not called")
 	c.Assume("binarisers may answer NotFoundException for any bilevel image (statement: 'or rejected as having no contrast'); GetBlackRow: rows with both colours must equal the model (interior pixel black iff luminance 0, first and last pixel of rows >= 3 wide white as in ZXing's -1 4 -1 filter), uniform rows may be refused or returned (tallies blackrow_dont_care_*)")
 
-	reps := c.Pick(1, 6)
+	reps := c.Pick(1, 10)
 	// 1. view sequences: every shape x every kind
 	const hchunk = 25
 	for kind := 0; kind < c17NKinds; kind++ {
